@@ -11,6 +11,10 @@ CLAIMED = {
    text='The real pruning kernels and TreeLikelihoodModel._call are executed symbolically for every enumerated topology / model shape; "log-likelihood == brute-force sum over all ancestral-state x rate-category assignments" becomes a polynomial identity that the SMT solver decides for ALL values of matrices, frequencies, proportions, weights, tip vectors, branch lengths, heights, clock and site rates. Bounded by topology size / states / categories, hence model checking of the enumerated configuration space, not a proof.',
    note='Reals not floats (the 1e-9 tolerance is outside the claim); K2 uses an uninterpreted row-stochastic P(t) in place of substitution_model.p_t (real p_t is C04, site rates C05); n<=4 quick / n<=5 thorough; S<=4; K<=2; one 4-column IUPAC alignment per n; datatype tables run concretely.',
    technique=TECH_A + '; polynomial identity per site pattern, lemma chaining for the log assembly'),
+ 'C04': dict(level=MC, ref='DESIGN.md §4 C04',
+   text='The real rate-matrix builders (HKY, GTR, GeneralSymmetric with several mappings, GeneralNonSymmetric, MG94 per genetic code, Empirical) run on symbolic kappa / rates / alpha / beta / frequencies on the simplex: the solver proves q() equals an independently constructed documented matrix, rows sum to 0, off-diagonals >= 0, detailed balance, stationarity and unit normalisation. The eigen path of p_t runs with eigh as a contract stub (S = V diag(e) V^T, V orthonormal, V^-1 = V^T): entry-wise obligations with lemma selection and lemma chaining establish that the matrix handed to eigh is symmetric, P_ij(t) = sum_k A_ik exp(e_k t) B_kj, AB = I and A diag(e) B = Q/norm. Closed forms (JC69, GeneralJC69 k<=5): P(0)=I, stochastic rows, semigroup law and P\'(0)=Q with exp uninterpreted + ground axioms. Non-reversible models: the argument of matrix_exp is Q/norm * t per branch.',
+   note='Reals not floats; eigh / matrix_exp by contract (LAPACK accuracy outside the claim); the step from (AB=I, AEB=Q) resp. (P(0)=I, semigroup, P\'(0)=Q) to P = exp(Qt) is a trusted classical lemma; state count <= 4 for the eigen obligations (MG94 61x61 only for its rate matrix); LG/WAG concrete tables not a solver result; frequencies constrained to the simplex.',
+   technique=TECH_A + '; functional contract stubs for eigh/inverse/matrix_exp, entry-wise lemma selection and chaining'),
  'C05': dict(level=MC, ref='DESIGN.md §4 C05',
    text='Constant / Invariant / Weibull(K) / Weibull(K)+invariant site models are built from JSON, their parameters replaced by symbols (shapes [] and [2]), and the real rates()/probabilities() code is executed symbolically. For every enumerated (model, K, mu, batch) configuration the solver proves for ALL shape > 0, pinv in [0,1), mu > 0: probabilities sum to one and are non-negative, rates are non-negative, the invariant class has rate literally 0 and probability pinv, and the probability-weighted mean rate equals mu (or 1) - also after every parameter has been updated (no stale cache).',
    note='Reals not floats; pow(q_k, 1/shape) uninterpreted (positive); double constants that are the nearest float of a small rational (1/K, quantiles) are read as that rational; K in 1..4 quick, 1..6,8,16 thorough.',
